@@ -11,6 +11,7 @@ warnings.showwarning and the absence of a running event loop, before/after DocTe
 utils.import_module_from_path (good / raising / missing / sys.path-rearranging modules).
 """
 import asyncio
+import contextlib
 import io
 import json
 import os
@@ -197,6 +198,9 @@ IMPORT_MODULES = {
     'rotates_path': 'import sys\nsys.path.append(sys.path.pop(0))\n',
     'rotates_back': 'import sys\nsys.path.insert(0, sys.path.pop())\nsys.path.insert(0, sys.path.pop())\n',
     'appends_then_raises': 'import sys\nsys.path.append("/zz/late")\nsys.path.remove("/zz/late")\nraise ValueError("late")\n',
+    # a script without a main guard: importing it ends with SystemExit / KeyboardInterrupt (not an Exception)
+    'exits': 'import sys\nsys.exit(3)\n',
+    'interrupts': 'raise KeyboardInterrupt()\n',
     'prepends_entry': 'import sys\nsys.path.insert(0, "/zz/mine")\nsys.path.remove("/zz/mine")\n',
     'replaces_stdout': 'import sys, io\n_o = sys.stdout\nsys.stdout = io.StringIO()\nsys.stdout = _o\n',
     # wraps the stream for good at import time (what colour / logging helpers do): after a DOCTEST RUN that imported the
@@ -388,17 +392,43 @@ def import_cases(ctx):
                     with warnings.catch_warnings():
                         warnings.simplefilter('ignore')
                         util_import.import_module_from_path(p, index=index)
-                except Exception as e:
+                except BaseException as e:      # noqa
                     err = e
                 after = snapshot()
                 problems = []
+                # the same module inside a zip archive, addressed as <archive>.zip/<module>.py and <archive>.zip:<module>.py
+                if index == -1 and not via_link:
+                    import zipfile
+                    for sep in ('/', ':'):
+                        zname = modname + ('_zs' if sep == '/' else '_zc')
+                        zpath = os.path.join(tmp, 'arch_' + zname + '.zip')
+                        with zipfile.ZipFile(zpath, 'w') as zf:
+                            zf.writestr(zname + '.py', src)
+                        ctx.evaluations += 1
+                        zb = snapshot()
+                        zerr = None
+                        try:
+                            with warnings.catch_warnings(), contextlib.redirect_stdout(io.StringIO()):
+                                warnings.simplefilter('ignore')
+                                util_import.import_module_from_path(zpath + sep + zname + '.py')
+                        except BaseException as e:      # noqa
+                            zerr = e
+                        za = snapshot()
+                        if sorted(za['path']) != sorted(zb['path']):
+                            problems.append('sys.path entries changed by import_module_from_path(<archive>.zip%s%s.py) (%s): added %r removed %r' % (
+                                sep, name, 'raised %s' % type(zerr).__name__ if zerr else 'imported', [x for x in za['path'] if x not in zb['path']],
+                                [x for x in zb['path'] if x not in za['path']]))
+                        if isinstance(zerr, (NameError, AttributeError, TypeError)) or bool(zerr) != (name in ('raises', 'appends_then_raises', 'exits', 'interrupts')):
+                            problems.append('import of %s from a zip archive: %s' % (name, 'raised %r' % zerr if zerr else 'did not raise'))
+                        sys.stdout = zb['stdout']
+                        sys.path[:] = zb['path']
                 if sorted(after['path']) != sorted(before['path']):
                     problems.append('sys.path entries changed by import_module_from_path(%s, index=%d): added %r removed %r' % (
                         name, index, [x for x in after['path'] if x not in before['path']], [x for x in before['path'] if x not in after['path']]))
                 if after['stdout'] is not before['stdout'] and name != 'wraps_stdout':
                     problems.append('sys.stdout changed by import')
                 sys.stdout = before['stdout']
-                expect_err = name in ('raises', 'appends_then_raises')
+                expect_err = name in ('raises', 'appends_then_raises', 'exits', 'interrupts')
                 if bool(err) != expect_err:
                     problems.append('import of %s: %s' % (name, 'raised %r' % err if err else 'did not raise'))
                 sys.path[:] = before['path']
@@ -417,7 +447,7 @@ def import_cases(ctx):
                         warnings.simplefilter('ignore')
                         so = sys.stdout
                         ex.run(on_error='return', verbose=0)
-                except Exception as e:
+                except BaseException as e:      # noqa
                     pass
                 after = snapshot()
                 if sorted(after['path']) != sorted(before['path']):
